@@ -92,7 +92,7 @@ theorem loop_spec (G : Tables) (script : Nat → Action) (h : Header) :
       | panic s => exact Or.inl ⟨s, rfl⟩
       | ok i =>
         simp only
-        cases ht : τ.track G i with
+        cases ht : τ.track G.tt i with
         | none => exact Or.inl ⟨_, rfl⟩
         | some τ1 =>
           simp only
